@@ -217,6 +217,13 @@ def run_case(case, ctx):
 		if fault is None or i != fault['pos'] % n:
 			ctx.cache[ck] = s
 		singles.append(s)
+	if fault is not None:
+		# every generated fault (missing path, directory, truncated gzip, bytes that are not UTF-8, binary junk, text that is not
+		# FASTA) is a file that cannot be read or parsed as FASTA: the single-file computation must fail as well
+		fi = fault['pos'] % n
+		if not isinstance(singles[fi], Exception):
+			raise Violation('fault_swallowed_single', f'calc_file_signature accepted an unparseable file ({fault["type"]}) and returned {len(singles[fi])} k-mers', case)
+		expect_fail = True
 	if fault is None:
 		for i in range(n):
 			for j in range(i + 1, n):
